@@ -203,7 +203,76 @@ func editCfg(c J) J {
 	return n
 }
 
+// chainScenarios: a three-tier chain root -> mid -> leaf (plus a second leaf under root); regeneration is
+// triggered at each tier by each kind of trigger, and the run that follows is hit at every write index by
+// every fault outcome (or not at all); then the default run and the no-op run.
+func chainScenarios(yield func(any)) {
+	mkEnts := func() []entitySpec {
+		algs := []string{"P-256", "P-384", "brainpoolP256r1", "P-224"}
+		ents := []entitySpec{
+			{alias: "root", path: "root.yaml", issuer: -1, cfg: J{"version": 1, "subject": "CN=Root " + fmt.Sprint(rng.Intn(1000)) + ",O=Chain", "keyAlgorithm": choose(algs)}},
+			{alias: "mid", path: "ca/mid.yaml", issuer: 0, cfg: J{"version": 1, "subject": "CN=Mid,O=Chain", "issuer": "root", "keyAlgorithm": choose(algs),
+				"extensions": []J{{"authorityKeyIdentifier": J{"content": J{"id": "hash"}}}, {"subjectKeyIdentifier": J{"content": "hash"}}}}},
+			{alias: "leaf", path: "ca/users/leaf.yml", issuer: 1, cfg: J{"version": 1, "subject": "CN=Leaf,O=Chain", "issuer": "mid",
+				"extensions": []J{{"authorityKeyIdentifier": J{"content": J{"id": "hash"}}}}}},
+			{alias: "leaf2", path: "leaf2.json", issuer: 0, cfg: J{"version": 1, "subject": "CN=Leaf Two", "issuer": "root"}},
+		}
+		return ents
+	}
+	triggers := []string{"edit-subject", "delete-pem", "strip-key", "truncate", "strip-cert", "touch", "copy-pem"}
+	for tier := 0; tier < 3; tier++ {
+		for _, trig := range triggers {
+			for w := -1; w < 4; w++ {
+				modes := []string{"error", "torn", "die"}
+				if w < 0 {
+					modes = []string{""}
+				}
+				if !thorough() && w >= 0 && (tier+w+len(trig))%2 == 0 {
+					modes = modes[(tier+w)%3 : (tier+w)%3+1]
+				}
+				for _, mode := range modes {
+					ents := mkEnts()
+					var files []FileIn
+					for _, e := range ents {
+						files = append(files, cfgFile(e))
+					}
+					steps := []Step{{Op: "run", Strat: defaultStrat}}
+					e := ents[tier]
+					switch trig {
+					case "edit-subject":
+						c := cloneJ(e.cfg)
+						c["subject"] = c["subject"].(string) + ",OU=Renamed"
+						e.cfg = c
+						f := cfgFile(e)
+						steps = append(steps, Step{Op: "write", File: &f})
+					case "delete-pem":
+						steps = append(steps, Step{Op: "delete", Path: pemPath(e.path)})
+					case "strip-key":
+						steps = append(steps, Step{Op: "strip", Path: pemPath(e.path), Block: "key"})
+					case "strip-cert":
+						steps = append(steps, Step{Op: "strip", Path: pemPath(e.path), Block: "cert"})
+					case "truncate":
+						steps = append(steps, Step{Op: "truncate", Path: pemPath(e.path), Keep: 40 + rng.Intn(900)})
+					case "touch":
+						steps = append(steps, Step{Op: "touch", Path: e.path})
+					case "copy-pem":
+						steps = append(steps, Step{Op: "copyPem", Path: pemPath(e.path), From: pemPath(ents[3].path)})
+					}
+					st := Step{Op: "run", Strat: choose([]int{defaultStrat, defaultStrat, 13, 4})}
+					if w >= 0 {
+						st.Fault = &Fault{AtWrite: w, Mode: mode, Keep: rng.Intn(1300)}
+					}
+					steps = append(steps, st)
+					steps = append(steps, Step{Op: "run", Strat: defaultStrat}, Step{Op: "run", Strat: defaultStrat})
+					yield(HistIn{Tz: choose([]int{0, 7200}), Files: files, Steps: steps})
+				}
+			}
+		}
+	}
+}
+
 func genHist(yield func(any)) {
+	chainScenarios(yield)
 	tzs := []int{0, 3600, -5 * 3600, 19800}
 	strats := []int{defaultStrat, defaultStrat, defaultStrat, 1, 8, 4, 2, 16, 31, 13, 5, 0}
 	for n := 0; n < pick(120, 3000); n++ {
